@@ -38,6 +38,14 @@ func zzRunSplit(wire []byte, splits []int, stream bool) *zzRunResult {
 			b = append(b, v...)
 			b = append(b, ';')
 		})
+		// trailer fields (available once the body has been read)
+		b = append(b, '|')
+		ctx.Request.Header.Trailer().VisitAll(func(k, v []byte) {
+			b = append(b, k...)
+			b = append(b, '=')
+			b = append(b, v...)
+			b = append(b, ';')
+		})
 		res.seen = append(res.seen, s)
 		res.bodies = append(res.bodies, b)
 		ctx.Response.SetBodyString("r" + s.uri)
@@ -68,7 +76,7 @@ var zzC02Templates = []string{
 	// 0: obs-folded header line followed by a fixed-length body and a pipelined request
 	"POST /x HTTP/1.1\r\nHost: h\r\nX-A: a\r\n b\r\nContent-Length: 5\r\n\r\nhello" + zzSentinel,
 	// 1: chunked body with trailer, then a pipelined request
-	"POST /c HTTP/1.1\r\nHost: h\r\nTransfer-Encoding: chunked\r\n\r\n3\r\nabc\r\n2\r\nde\r\n0\r\nX-T: v\r\n\r\n" + zzSentinel,
+	"POST /c HTTP/1.1\r\nHost: h\r\nTrailer: X-T\r\nTransfer-Encoding: chunked\r\n\r\n3\r\nabc\r\n2\r\nde\r\n0\r\nX-T: v\r\n\r\n" + zzSentinel,
 	// 2: two plain requests
 	"GET /a HTTP/1.1\r\nHost: h\r\nX-B: 1\r\n\r\n" + zzSentinel,
 	// 3: header area with two structural wildcards (filled in below)
@@ -77,6 +85,10 @@ var zzC02Templates = []string{
 	"\r\n\r\nGET /l HTTP/1.1\r\nHost: h\r\n\r\n" + zzSentinel,
 	// 5: chunk sizes of two hex digits, no trailer, then a pipelined request
 	"POST /d HTTP/1.1\r\nHost: h\r\nTransfer-Encoding: chunked\r\n\r\n1a\r\nabcdefghijklmnopqrstuvwxyz\r\n10\r\n0123456789ABCDEF\r\n0\r\n\r\n" + zzSentinel,
+	// 6: trailer section with an obs-folded value
+	"POST /e HTTP/1.1\r\nHost: h\r\nTrailer: Foo, X-U\r\nTransfer-Encoding: chunked\r\n\r\n3\r\nabc\r\n0\r\nFoo: bar\r\n baz\r\nX-U: w\r\n\r\n" + zzSentinel,
+	// 7: trailer section whose first line is a field that is not allowed in a trailer
+	"POST /f HTTP/1.1\r\nHost: h\r\nTrailer: Foo\r\nTransfer-Encoding: chunked\r\n\r\n3\r\nabc\r\n0\r\nContent-Length: 3\r\nFoo: bar\r\n\r\n" + zzSentinel,
 }
 
 // ZZ_C02_H1: the same byte stream delivered whole and delivered cut at a split point (every
